@@ -247,6 +247,19 @@ func execRun(st *Store, sc Scenario, auto bool) (res RunResult) {
 	}
 	sort.SliceStable(items[:nv], func(i, j int) bool { return items[i].Coq < items[j].Coq })
 	res.Out = Outcome{Trace: items, Final: st.Observe()}
+	// the order of first use depends on Go map iteration inside the library (the stored
+	// inventory is a map): canonical order, so that fault variants drawn from this list are
+	// the same on every run of one seed
+	sort.SliceStable(addrs, func(i, j int) bool {
+		a, b := addrs[i], addrs[j]
+		if a.Kind != b.Kind {
+			return a.Kind < b.Kind
+		}
+		if a.I != b.I {
+			return a.I < b.I
+		}
+		return a.N < b.N
+	})
 	res.Addrs, res.Plan, res.NReq = addrs, cons.initPlan, nreq
 	w.mu.Lock()
 	res.Waits, res.LateSent = w.autoWaits, w.lateSent
